@@ -2,8 +2,12 @@
    encoding, byte for byte", and nothing else.  Model: C12/Model.v (marshal.go); specification:
    C12/Spec.v (native protocol specification, section 6); meaning of a Go value for a column:
    C12/Denote.v (the documentation table of gocql.Marshal).  Every theorem is closed by [exact] of a
-   lemma from Proofs1-5.v and followed by Print Assumptions.  Witnesses that the exclusions are needed
-   (= the known findings) are in C12/Refuted.v. *)
+   lemma from Proofs1-5.v and followed by Print Assumptions.  The defects found with this check (big.Int
+   into bigint, defined int64 into duration, pre-epoch and out-of-range dates, null tuple components,
+   untyped nil for a tuple, null into *inf.Dec / *net.IP / *[16]byte / *time.Time) were repaired in /repo;
+   the model is the repaired code and the theorems no longer exclude those regions.  What is still
+   excluded: the kept finding F-C02-1 (unsigned values reinterpreted as signed), with witnesses in
+   C12/Refuted.v, and wrap-arounds outside any realistic range. *)
 From GocqlV Require Import Lib.Base Gen.Consts C12.Model C12.Spec C12.Denote
   C12.Proofs1 C12.Proofs2 C12.Proofs3 C12.Proofs4 C12.Proofs5.
 
@@ -56,8 +60,9 @@ Print Assumptions C12_decoders_invert_spec.
 
 (* Native columns (all 21 type ids, every Go source type of the model's universe): whenever Marshal
    returns bytes (or nil) for a well-formed Go value that the documentation gives a meaning to, those
-   are exactly the specification's encoding of that meaning (nil exactly for null) -- outside the
-   regions of the known findings collected in [clean_native] (C12/Denote.v). *)
+   are exactly the specification's encoding of that meaning (nil exactly for null).  [clean_native]
+   (C12/Denote.v) excludes only: an unsigned source above the column's signed maximum (F-C02-1, kept) and
+   a time.Time whose millisecond timestamp overflows int64. *)
 Theorem C12_marshal_native_is_spec : forall id g ob x,
   wf_native g -> clean_native id g ->
   marshal_native id g = Ok ob -> denote_native id g = Some x -> encode_opt 0 (TNative id) x = Some ob.
@@ -67,8 +72,7 @@ Print Assumptions C12_marshal_native_is_spec.
 (* The same through every nesting of list, set, map, tuple and user-defined type, both collection
    framings (protocol <= 2: 2-byte lengths, >= 3: 4-byte lengths and -1 for null), pointers peeled at
    every level: by induction over the type tree.  [good] (C12/Proofs4.v) = well-formed leaves, leaves
-   outside [clean_native]'s regions, tuple components that mean null have one of the two shapes written
-   as -1 (F-C12-4), tuple / UDT components shorter than 2 GiB. *)
+   inside [clean_native], tuple / UDT components shorter than 2 GiB. *)
 Theorem C12_marshal_is_spec : forall pv ty g ob ox,
   good pv ty g -> marshal pv ty g = Ok ob -> denote ty g = Some ox -> encode_opt pv ty ox = Some ob.
 Proof. exact marshal_is_spec. Qed.
@@ -107,5 +111,4 @@ Proof.
   cbv zeta. split; [|split; vm_compute; reflexivity].
   cbn [good peel as_list]. repeat constructor; cbn; try lia; try discriminate; try (intros; discriminate);
     try (intros ? H; vm_compute in H; injection H as <-; vm_compute; reflexivity).
-  intros [H|H]; discriminate.
 Qed.
